@@ -11,6 +11,7 @@ import (
 	"runtime"
 	"runtime/debug"
 	"strings"
+	"sync"
 	"time"
 
 	"github.com/DrmagicE/gmqtt/pkg/codes"
@@ -248,6 +249,15 @@ func c06Oracle12(v int, data []byte, bufSize int, c *ev.Case, region string) (c0
 	default:
 		c.Label("accepted_but_ref_rejects") // not asserted: the property does not demand rejection
 	}
+	// The accepted packet is a value: it must stay what it is while the codec is used for other packets (decoded
+	// fields must not alias memory the codec reuses). A handful of other packets are decoded and encoded, then the
+	// packet is rendered again.
+	before := got.String()
+	c06Interfere()
+	if after, _ := c06FromG(res.pkt); after == nil || after.String() != before {
+		return res, ev.Violf("C06.decoded-unstable", "the packet decoded from %s changed after the codec had been used for other packets\n at decode time: %s\n afterwards:     %s",
+			c06Hex(data), before, after).With(feats...)
+	}
 	if h.wellFormed && h.canonical {
 		if tb := packets.TotalBytes(res.pkt); int(tb) != h.hdrLen+h.rl || res.consumed != h.hdrLen+h.rl {
 			return res, ev.Violf("C06.size", "decoded packet: TotalBytes=%d, consumed=%d, encoded length=%d on %s", tb, res.consumed, h.hdrLen+h.rl, c06Hex(data)).With(feats...)
@@ -256,6 +266,34 @@ func c06Oracle12(v int, data []byte, bufSize int, c *ev.Case, region string) (c0
 		c.Label("accepted_noncanonical_header")
 	}
 	return res, c06Reencode(v, res.pkt, c, feats)
+}
+
+var (
+	c06InterfereOnce sync.Once
+	c06InterfereSet  [][2]any // (version, bytes)
+)
+
+// c06Interfere decodes and re-encodes a fixed set of sample packets (every type that carries strings, binary data
+// or user properties, all versions): whatever scratch memory the codec recycles is overwritten by this.
+func c06Interfere() {
+	c06InterfereOnce.Do(func() {
+		vers, datas := c06SeedPackets()
+		for i := range datas {
+			if len(datas[i]) >= 8 && len(datas[i]) <= 400 && len(c06InterfereSet) < 24 && i%3 == 0 {
+				c06InterfereSet = append(c06InterfereSet, [2]any{c06FuzzVersion(vers[i]), datas[i]})
+			}
+		}
+	})
+	for _, it := range c06InterfereSet {
+		r := packets.NewReader(bytes.NewReader(it[1].([]byte)))
+		r.SetVersion(packets.Version(it[0].(int)))
+		p, err := r.ReadPacket()
+		if err != nil || p == nil {
+			continue
+		}
+		var out bytes.Buffer
+		_ = p.Pack(&out)
+	}
 }
 
 // c06Reencode is sub-check 2: Pack the accepted packet, decode again, compare.
